@@ -35,6 +35,16 @@ pub struct Case {
     /// in addition to the policy grid: a CDN history (CdnClient::download_with_retry over HTTP status classes)
     #[serde(default)]
     pub cdn: Option<super::cdn::CdnCase>,
+    /// every attempt takes this long (virtual ms) before it returns its outcome; waits are measured from the END
+    /// of one attempt to the START of the next
+    #[serde(default)]
+    pub attempt_ms: u64,
+    /// typed policies only: initial / maximum back-off in NANOSECONDS instead of the grid's milliseconds (values
+    /// below, at and between whole milliseconds)
+    #[serde(default)]
+    pub initial_ns: Option<u64>,
+    #[serde(default)]
+    pub max_ns: Option<u64>,
 }
 
 /// outcome alphabet: (name, hint in ms). Whether an error is retryable is asked of the error itself
@@ -134,7 +144,7 @@ impl Scenario for Retry {
         "one (policy, outcome sequence) execution of RetryPolicy::execute under the virtual clock"
     }
     fn rule(&self) -> &'static str {
-        "Run i takes policy #(i mod 3000) of the full grid max_attempts 0..5 x initial_backoff {0,1ms,100ms,10s,1h} x max_backoff {0,1ms,100ms,10s,1h} x multiplier {0,0.5,1,2,10,1e300,NaN,-1,-0.0,inf} x jitter on/off (every second cycle the policy is built through RetryPolicy::from_env from environment strings; one run in eight from RAW strings - huge, negative, fractional, garbage, padded, unset - and a third of those with a retry budget of 255 ... 70000, where a few sequences run to the end of the budget and the exact number of invocations is judged) and executes, on the real RetryPolicy::execute under tokio's paused clock, ALL outcome sequences up to length 3 plus a seeded sample of longer ones (up to max_attempts+2) over {Ok, Network, Timeout, 503, ServiceUnavailable, 429, RateLimited(None|0|1ms|7s), Parse, 404}. The scripted closure records tokio::time::Instant::now() at every invocation, so every gap is measured exactly; jitter is drawn from the seeded entropy seam. One run in six additionally drives the real CdnClient::download_with_retry (default policy) over the simulated HTTP transport (scen/cdn.rs: per-request behaviour queues over {ok, 5xx x8, 429 with no / 0 / 1 / 7 / unparsable Retry-After, 400/403/404/410, refused, reset, client time-out, body reset, body stall}); there the number of REQUESTS, the waits between the failure of one request and the start of the next (from the simulated host's log, on tokio's clock), the stop at the first 200 / first definitive status, and the error returned are judged by the same rules. evaluations = executions; non-trivial = the closure was invoked >= 2 times (>= 1 injected failure was retried); distinct = hash of (policy, sequence, measured gaps)."
+        "Run i takes policy #(i mod 3000) of the full grid max_attempts 0..5 x initial_backoff {0,1ms,100ms,10s,1h} x max_backoff {0,1ms,100ms,10s,1h} x multiplier {0,0.5,1,2,10,1e300,NaN,-1,-0.0,inf} x jitter on/off (every second cycle the policy is built through RetryPolicy::from_env from environment strings; one run in eight from RAW strings - huge, negative, fractional, garbage, padded, unset - and a third of those with a retry budget of 255 ... 70000, where a few sequences run to the end of the budget and the exact number of invocations is judged) and executes, on the real RetryPolicy::execute under tokio's paused clock, ALL outcome sequences up to length 3 plus a seeded sample of longer ones (up to max_attempts+2) over {Ok, Network, Timeout, 503, ServiceUnavailable, 429, RateLimited(None|0|1ms|7s), Parse, 404}. The scripted closure records tokio::time::Instant::now() at every invocation, so every gap is measured exactly; jitter is drawn from the seeded entropy seam. One run in six additionally drives the real CdnClient::download_with_retry (default policy) over the simulated HTTP transport (scen/cdn.rs: per-request behaviour queues over {ok, 5xx x8, 429 with no / 0 / 1 / 7 / unparsable (word, HTTP date, 2^64, negative, fractional) Retry-After, 400/403/404/410, refused, reset, client time-out, body reset, body stall}); there the number of REQUESTS, the waits between the failure of one request and the start of the next (from the simulated host's log, on tokio's clock), the stop at the first 200 / first definitive status, and the error returned are judged by the same rules. One run in ten makes every attempt take 1 ms / 45 s / 1 h of virtual time (waits are measured from the end of an attempt to the start of the next); one typed run in ten has back-offs given in nanoseconds (1 ns, 999 999 ns, 1.5 ms ...). evaluations = executions; non-trivial = the closure was invoked >= 2 times (>= 1 injected failure was retried); distinct = hash of (policy, sequence, measured gaps)."
     }
     fn assumptions(&self) -> Vec<&'static str> {
         vec![
@@ -247,7 +257,14 @@ impl Scenario for Retry {
         };
         // drawn last: one run in six also drives the CDN client's retry loop over the simulated HTTP transport
         let cdn = if rng.chance(1, 6) { Some(super::cdn::generate(rng)) } else { None };
-        Case { max_attempts, initial_ms, max_ms, mult, jitter, via_env, seqs, env_raw, cdn }
+        // drawn last: slow attempts (one run in ten), sub-millisecond back-offs (one typed run in ten)
+        let attempt_ms = if rng.chance(1, 10) { *rng.pick(&[1u64, 45_000, 3_600_000]) } else { 0 };
+        let (initial_ns, max_ns) = if !via_env && env_raw.is_none() && rng.chance(1, 10) {
+            (Some(*rng.pick(&[1u64, 999_999, 1_000_001, 1_500_000])), Some(*rng.pick(&[1u64, 999_999, 1_500_000, 2_000_000_000])))
+        } else {
+            (None, None)
+        };
+        Case { max_attempts, initial_ms, max_ms, mult, jitter, via_env, seqs, env_raw, cdn, attempt_ms, initial_ns, max_ns }
     }
 
     fn execute(&self, case: &Case, ctx: &mut Ctx) -> Option<Violation> {
@@ -326,7 +343,13 @@ fn build_policy(case: &Case) -> RetryPolicy {
             Err(e) => std::panic::resume_unwind(e),
         }
     } else {
-        RetryPolicy { max_attempts: case.max_attempts, initial_backoff: Duration::from_millis(case.initial_ms), max_backoff: Duration::from_millis(case.max_ms), multiplier: mult, jitter: case.jitter }
+        RetryPolicy {
+            max_attempts: case.max_attempts,
+            initial_backoff: case.initial_ns.map_or(Duration::from_millis(case.initial_ms), Duration::from_nanos),
+            max_backoff: case.max_ns.map_or(Duration::from_millis(case.max_ms), Duration::from_nanos),
+            multiplier: mult,
+            jitter: case.jitter,
+        }
     }
 }
 
@@ -383,6 +406,9 @@ async fn run(case: &Case, ctx: &mut Ctx) -> Option<Violation> {
         }
         ctx.count("evaluations");
         let calls: Arc<Mutex<Vec<tokio::time::Instant>>> = Arc::new(Mutex::new(Vec::new()));
+        let ends: Arc<Mutex<Vec<tokio::time::Instant>>> = Arc::new(Mutex::new(Vec::new()));
+        let e2 = ends.clone();
+        let attempt = Duration::from_millis(case.attempt_ms);
         let c2 = calls.clone();
         let s2 = seq.clone();
         // hints above a year are "absurd": tokio caps a single sleep at about 30 years, so the wait is only
@@ -390,7 +416,7 @@ async fn run(case: &Case, ctx: &mut Ctx) -> Option<Violation> {
         const YEAR_MS: u64 = 365 * 24 * 3600 * 1000;
         let max_hint = seq.iter().filter_map(|o| hint_of(*o)).map(|d| (d.as_millis().min(u128::from(40 * YEAR_MS))) as u64).max().unwrap_or(0);
         let per = ((max_b.as_millis().min(u128::from(40 * YEAR_MS)) as u64).max(max_hint) as f64 * 1.3) as u64 + 2;
-        let budget = Duration::from_millis((u64::from(policy.max_attempts) + 1).saturating_mul(per).saturating_add(1000));
+        let budget = Duration::from_millis((u64::from(policy.max_attempts) + 1).saturating_mul(per.saturating_add(case.attempt_ms)).saturating_add(1000));
         // waits beyond a year (absurd hint or absurd max_backoff): tokio's PAUSED clock cannot jump more than
         // its timer wheel spans (2^36 ms, about 2.2 years) in one step, so such a call is cut off after 1.9
         // virtual years, judged for panics and bounds only, and ends the run (the runtime is not reused)
@@ -398,12 +424,17 @@ async fn run(case: &Case, ctx: &mut Ctx) -> Option<Violation> {
         let budget = budget.min(Duration::from_millis(YEAR_MS));
         let fut = policy.execute(move || {
             let c = c2.clone();
+            let e = e2.clone();
             let s = s2.clone();
             async move {
                 let mut g = c.lock().unwrap_or_else(std::sync::PoisonError::into_inner);
                 let i = g.len();
                 g.push(tokio::time::Instant::now());
                 drop(g);
+                if !attempt.is_zero() {
+                    tokio::time::sleep(attempt).await;
+                }
+                e.lock().unwrap_or_else(std::sync::PoisonError::into_inner).push(tokio::time::Instant::now());
                 // past the end of the script the operation keeps failing with a plain retryable error
                 let o = s.get(i).copied().unwrap_or(1);
                 if o == 0 { Ok::<usize, ProtocolError>(i) } else { Err(make_err(o)) }
@@ -433,7 +464,9 @@ async fn run(case: &Case, ctx: &mut Ctx) -> Option<Violation> {
         let m = times.len();
         let names: Vec<&str> = seq.iter().map(|o| OUTCOMES[*o as usize % NOUT].0).collect();
         let pol = format!("max_attempts={} initial={:?} max={:?} multiplier={} jitter={}{}", policy.max_attempts, policy.initial_backoff, policy.max_backoff, case.mult, policy.jitter, if case.via_env { " (from_env)" } else { "" });
-        let gaps: Vec<Duration> = times.windows(2).map(|w| w[1] - w[0]).collect();
+        // a wait = from the END of one attempt to the START of the next
+        let ended: Vec<tokio::time::Instant> = ends.lock().unwrap_or_else(std::sync::PoisonError::into_inner).clone();
+        let gaps: Vec<Duration> = times.iter().skip(1).zip(ended.iter()).map(|(start, end)| start.saturating_duration_since(*end)).collect();
         ctx.event(|| json!({"k":"op","op":"execute","policy":pol,"outcomes":names,"invocations":m,"gaps_ms":gaps.iter().map(|g| g.as_secs_f64()*1000.0).collect::<Vec<_>>()}));
         ctx.obs(seq);
         for g in &gaps {
